@@ -602,6 +602,7 @@ def run_case(chk, stream, case):
                             break
                     else:
                         raise InfraError("keep-alive thread did not come back")
+                    FakeDispatcher.LOG.append("tickLive")        # harness marker: a running keep-alive thread was due (it pings, written or not, or gives up)
             elif ev.startswith("pong"):
                 from yowsup.layers.protocol_iq.protocolentities import ResultIqProtocolEntity
                 fresh = ev.endswith(":1")
@@ -626,7 +627,8 @@ def run_case(chk, stream, case):
                 th._verif_started = True
                 chk.vt.at_sleep.acquire(timeout=2)      # the fresh thread reached its first sleep
         # ---- observations
-        obs = list(FakeDispatcher.LOG)
+        tick_live = "tickLive" in FakeDispatcher.LOG
+        obs = [o for o in FakeDispatcher.LOG if o != "tickLive"]
         for e in near.events[nearev0:]:
             n = e.getName()
             if n.endswith("network.connected"):
@@ -660,11 +662,16 @@ def run_case(chk, stream, case):
         # pings: the model says pingSent + written/dropped; the real trace shows the write
         mobs_cmp = [x for x in mobs if x not in ("pingSent", "dropped")]
         obs_cmp = [x for x in obs if x != "dropped"]
-        trace_all.append((mev, obs if open_before else obs + ["noOpenConnectionBefore"]))
+        trace_all.append((mev, (obs if open_before else obs + ["noOpenConnectionBefore"]) + (["tickLive"] if tick_live else [])))
         if sorted(obs_cmp) != sorted(mobs_cmp) and not diverged:
             fails.append(corr("history:" + ev.split(":")[0], "event #%d %s of %s (opt %s): impl=%s model=%s" % (ei, mev, list(executed), case["opt"], obs, mobs)))
             diverged = True      # the real stack runs on (the model only decides the alphabet from here): the oracle sees the whole history
     # ---- oracle on the real trace
+    import os as _os
+    if _os.environ.get("VERIF_DEBUG"):
+        import sys as _sys
+        for t_ in trace_all:
+            _sys.stderr.write("TRACE %r\n" % (t_,))
     fails += check_trace(case, executed, trace_all)
     # stop the keep-alive thread of this stack
     th = getattr(iq, "_pingThread", None) if iq is not None else None
@@ -708,19 +715,25 @@ def check_trace(case, executed, trace):
                 break
             up_open = False
             live = any(o.startswith("created") for o in obs) and obs.index("downNear") < max(j for j, o in enumerate(obs) if o.startswith("created"))
-        # keep-alive: a connection may be closed at a tick only if a ping written to THIS connection is still unanswered
-        if ev.startswith("dConnected"):
+        # keep-alive: a connection may be closed at a tick only if a ping is still unanswered.  A ping written to an earlier connection stops
+        # counting once the layers have been told that connection is down (the deferred 'disconnected' announcement delivered by the loop:
+        # "downAll"; the keep-alive cannot know before — C16_down_resets_keepalive), or once the keep-alive itself gave up on it
+        if "downAll" in obs:
             unanswered = 0
+        if (ev in ("disconnectReq", "failure") or ev.startswith("streamError")) and any(o.startswith("closed") for o in obs):
+            unanswered = 0          # a disconnect request broadcast from above passed the keep-alive's layer: it stopped and forgot its pings
         if ev == "pong:1":
             unanswered = max(0, unanswered - 1)
         if ev == "pingTick":
             closed_now = any(o.startswith("closed") for o in obs)
             if closed_now and unanswered == 0:
-                out.append(oracle("C16:ping-timeout-without-unanswered-ping", "history %s: the keep-alive closed the connection at this tick although no ping written to this "
-                                  "connection is unanswered (state of an earlier connection leaked)" % executed[:i + 1]))
+                out.append(oracle("C16:ping-timeout-without-unanswered-ping", "history %s: the keep-alive closed the connection at this tick although no ping is unanswered (pings of a connection "
+                                  "whose 'disconnected' announcement was delivered do not count: state of an earlier connection leaked)" % executed[:i + 1]))
                 break
-            if any(o.startswith("written") for o in obs) and not closed_now:
-                unanswered += 1
+            if "tickLive" in obs and not closed_now:
+                unanswered += 1          # a ping was due and issued — written, or dropped because the connection is not up: either way it is not answered yet
+            if closed_now:
+                unanswered = 0      # the keep-alive stopped itself and forgot its pings (it asked for the disconnect)
         if ev == "success" and obs.count("authed") != 1:
             out.append(oracle("C16:authed-not-once", "history %s: success announced authed %d time(s)" % (executed[:i + 1], obs.count("authed"))))
             break
